@@ -87,10 +87,12 @@ Definition propose_with (mp : Z -> Z) (ps : list (pool sidc)) (m : method) (cs :
   | MSingle, _ => one_if_budget mp cs
   | MDrift, _ => one_if_budget mp cs
   | MStaticDrift, ChStatic groups =>
-      flat_map (fun g => match find_pool ps (fst g) with
-                         | Some p => static_drift_pool mp p (snd g) (cands_of_pool (fst g) cs)
-                         | None => []
-                         end) groups
+      if nodup_ids (map fst groups) then
+        flat_map (fun g => match find_pool ps (fst g) with
+                           | Some p => static_drift_pool mp p (snd g) (cands_of_pool (fst g) cs)
+                           | None => []
+                           end) groups
+      else []
   | _, _ => []
   end.
 
@@ -123,7 +125,7 @@ Definition validate_with (mp : Z -> Z) (m : method) (prop cur : list cand) : lis
   match m with
   | MEmptiness => validate_filter mp cur'
   | MMulti | MSingle =>
-      if (length cur' =? length prop)%nat && validate_all mp cur' then prop else []
+      if (length cur' =? length prop)%nat && validate_all mp cur' then cur' else []
   | MDrift | MStaticDrift => prop
   end.
 
